@@ -26,7 +26,13 @@ def run(ctx):
     ctx.each(flowalg.accumulator_rule, ctx, repo, "R02e")
     ctx.each(flowalg.must_store_rule, ctx, repo, "R02f")
     ctx.each(r02g, ctx, repo)
+    # a junction read before the junction upstream of it has been balanced passes on NaN: the ordering graph has an edge for every junction-to-junction link
+    from .c01 import r01e
+
     from . import c04
+
+    ctx.each(r01e, ctx, repo, T)
+    ctx.each(c04.r04b, ctx, repo)
 
     ctx.each(c04.r04c, ctx, repo)  # the residual outflow gets the remainder only while the explicit proportions sum below 1: otherwise it would be a negative (reverse) flow
 
